@@ -1044,7 +1044,7 @@ func genProject(t *rapid.T) ProjCase {
 	uses := rapid.SliceOfN(rapid.Custom(func(t *rapid.T) groupUse {
 		u := groupUse{Used: rapid.IntRange(0, 9).Draw(t, "used") >= 4}
 		u.Imports = rapid.SliceOfN(rapid.Custom(func(t *rapid.T) importSpec {
-			return importSpec{File: rapid.IntRange(0, 5).Draw(t, "importingFile"), Form: rapid.IntRange(0, 5).Draw(t, "importForm")}
+			return importSpec{File: rapid.IntRange(0, 5).Draw(t, "importingFile"), Form: rapid.IntRange(0, 6).Draw(t, "importForm")}
 		}), 1, 2).Draw(t, "imports")
 		return u
 	}), maxGroupsPerProject, maxGroupsPerProject).Draw(t, "groupUse")
@@ -1141,6 +1141,10 @@ func genProject(t *rapid.T) ProjCase {
 			case 4:
 				addImport(fi, g+".util.Helper", g, true, true)
 				feats["import_static"] = true
+			case 6:
+				// on-demand import of the group's own package: import org.mockito.*;
+				addImport(fi, g, g, false, true)
+				feats["import_wildcard_of_group_package"] = true
 			default:
 				addImport(fi, "shaded."+g+".Client", g, false, false)
 				feats["import_of_relocated_package"] = true
